@@ -101,6 +101,14 @@ def coq_prop(prop):
     res['assumptions'] = sorted(set(axioms))
     return res
 
+def coq_eval(body, name='eval', timeout=600):
+    """compile a scratch .v file (under .cache) against the development and return coqc's output"""
+    d = os.path.join(CACHE, 'eval'); os.makedirs(d, exist_ok=True)
+    f = os.path.join(d, name + '.v')
+    open(f, 'w').write(body)
+    rc, out = run(['coqc', '-Q', os.path.join(COQ, 'theories'), 'TV', '-Q', os.path.join(COQ, 'gen'), 'TV', f], cwd=d, timeout=timeout)
+    return rc, strip_noise(out)
+
 AXIOM_ALLOWLIST = set([
     # standard-library axioms that may legitimately appear (named in DESIGN.md section 8)
     'Coq.Logic.FunctionalExtensionality.functional_extensionality_dep',
